@@ -213,7 +213,17 @@ class StickyAssignmentExecutor:
     def _initialize(self, cluster: ClusterMetadata) -> None:
         self._init_current_assignments(self.members)
 
+        # only topics somebody subscribes to take part (as in the Java assignor):
+        # a partition nobody can consume must not make the subscriptions look
+        # non-identical
+        subscribed_topics = {
+            topic
+            for member_metadata in self.members.values()
+            for topic in member_metadata.subscription
+        }
         for topic in cluster.topics():
+            if topic not in subscribed_topics:
+                continue
             partitions = cluster.partitions_for_topic(topic)
             if partitions is None:
                 log.warning("No partition metadata for topic %s", topic)
